@@ -774,7 +774,7 @@ func main() {
 		Technique: "explicit enumeration of all call histories up to a depth x cache configurations x start states on the real code vs pure-function model (cross-configuration differential)",
 		Rule: "calls = 6 types (one with rules under the default tag name on every field but under tag a only on some; nested, time.Time fields, a pair of mutually recursive types, two sub-objects of different types in front of ruled fields) x tag names {a,b} (different rules per tag on the same fields; the value violates the a-rules on one field and the b-rules on another) x {tag rules, per-call override of the shared field}; " +
 			"all sequences of length d (3 quick, 4 thorough) from 3 start states (cold, warmed under the other tag / with overrides, warmed then flushed by capacity+1 filler types) on 8 cache configurations switched in-process, plus, for the bounded LRUs of capacity 1,2,3,8, the start states churn-r (r = 1..2*capacity+3 evictions before the sequence, and 1024..1027 for the default-size LRU(512): every position of the LRU's internal map rebuild relative to the next d calls) " +
-			"and on the untouched package default and on the library's own LRU(0) / LRU(1) / LRU(2) handed to SetStructTypeCache directly (separate worker sets, one cache instance per process so sequences chain); and every depth-3 sequence on LRU(1), LRU(2), LRU(512), sync.Map with one (thorough: one or two) of its cache loads answered with a miss although the entry is present (the answer a concurrent eviction produces); one rule-map object edited in place between successive calls, and the history (validate, register a global function for a name the type uses, validate) on every configuration; every call compared with walk(type, tag, override, value); states = (configuration, per-type last tag) ; non-trivial = a type re-validated under the other tag",
+			"and on the untouched package default and on the library's own LRU(0) / LRU(1) / LRU(2) handed to SetStructTypeCache directly (separate worker sets, one cache instance per process so sequences chain); and every depth-3 sequence on LRU(1), LRU(2), LRU(512), sync.Map with one (thorough: one or two) of its cache loads answered with a miss although the entry is present (the answer a concurrent eviction produces); three types whose tags hold blanks around the rule separator (every 3-call history plus the first call again on every configuration, reference = the always-miss configuration); one rule-map object edited in place between successive calls, and the history (validate, register a global function for a name the type uses, validate) on every configuration; every call compared with walk(type, tag, override, value); states = (configuration, per-type last tag) ; non-trivial = a type re-validated under the other tag",
 		Assumptions: []string{"walk model internal/walk", "the global cache is replaced through the public SetStructTypeCache only"},
 		Run:         run,
 		Modes:       []runner.Mode{{Name: "inproc"}, {Name: "default", Workers: 8}, {Name: "direct0", Workers: 2}, {Name: "directmap", Workers: 2}, {Name: "direct1", Workers: 3}, {Name: "direct2", Workers: 3}},
